@@ -4,6 +4,7 @@ import (
 	"fmt"
 	"os"
 	"path/filepath"
+	"sort"
 	"strings"
 	"sync"
 
@@ -37,7 +38,7 @@ func specCFG() *ref.CFG {
 func mutantSeeds(tier string) []gram.Seed {
 	seeds := gram.Seeds()
 	// keywords as string literals, some spelled like production / regular-definition names
-	kw := gram.Seed{Name: "keywords", Text: "a : 'a' ;\n_d : '0'-'9' ;\nn : _d { _d } ;\nS : \"SELECT\" a \"FROM\" T | \"_x\" n | \"X\" ;\nT : a | T \"Comma\" a ;\n"}
+	kw := gram.Seed{Name: "keywords", Text: "a : 'a' ;\n_d : '0'-'9' ;\n_exp : ( 'e' | 'E' ) [ '+' | '-' ] _d { _d } ;\nn : _d { _d } ;\nS : \"SELECT\" a \"FROM\" T | \"_x\" n | \"X\" ;\nT : a | T \"Comma\" a ;\n"}
 	if tier != "thorough" {
 		return append(append([]gram.Seed{}, seeds[:4]...), kw)
 	}
@@ -126,6 +127,7 @@ func init() {
 			texts[i] = m.Text
 		}
 		var mu sync.Mutex
+		badLex := map[string][]string{}
 		// every mutant without flags of its own and with -no_lexer (checks that only happen as a side effect of
 		// building the lexer must not be lost); the symbol-level mutants also with -zip and -v
 		for _, flags := range [][]string{{"-a"}, {"-a", "-no_lexer"}, {"-a", "-zip", "-v"}} {
@@ -152,6 +154,14 @@ func init() {
 				if m.Class == "wellformed" {
 					return
 				}
+				if o.Res.Exit == 0 && !o.Res.Hang && m.M.Kind == "badlex" {
+					// one finding per malformed lexeme (not per place it was put): the front-end scanner counts lexical
+					// errors and nobody looks at the count
+					lex := m.M.Toks[badLexAt(m.M.Toks)].Text
+					r.Add("accepted_illformed", 1)
+					badLex[lex] = append(badLex[lex], fmt.Sprintf("seed %s, %s, flags [%s]", m.Seed, m.M.Desc, fl))
+					return
+				}
 				if o.Res.Exit == 0 && !o.Res.Hang {
 					r.Add("accepted_illformed", 1)
 					r.Violate("c14", m.Seed+"/"+m.M.Desc+" "+fl, fmt.Sprintf("seed %s, %s, flags [%s]: %s, yet gocc exits with status 0\n  text: %s", m.Seed, m.M.Desc, fl, m.Why, oneLine(m.Text)),
@@ -165,10 +175,29 @@ func init() {
 				}
 			})
 		}
+		var lexes []string
+		for l := range badLex {
+			lexes = append(lexes, l)
+		}
+		sort.Strings(lexes)
+		for _, l := range lexes {
+			r.Violate("c14", "malformed lexeme accepted: "+l, fmt.Sprintf("the malformed lexeme %s (not a literal by the lexical rules of spec/gocc2.ebnf) is accepted, gocc exits with status 0 in %d of the places it was put, e.g. %s", l, len(badLex[l]), badLex[l][0]),
+				map[string]any{"lexeme": l, "places": badLex[l]})
+		}
 		sw.checkCross()
 		r.Set("cli_cross_checked", sw.pool.CrossChecked.Load())
 		r.Set("rule", "per seed grammar: every single token deleted, every token replaced by a representative of each other front-end token kind, every kind inserted at every gap, every use of a production / regular-definition name renamed to an undefined one, every lexical definition duplicated; ill-formedness is decided by the harness (Earley over spec/gocc2.ebnf read by an independent reader for the token level; three symbol-table rules); every ill-formed mutant must make the real generator exit non-zero, without flags, with -no_lexer, and (symbol-level mutants plus every ninth other) with -zip -v; distinct = ill-formed mutants rejected")
 		r.Assumption("one-directional: mutants the oracle calls well-formed are not judged here (C09 takes them)")
 		return r.Finish(nil)
 	}
+}
+
+// badLexAt: index of the malformed lexeme in a "badlex" mutant.
+func badLexAt(toks []gram.Tok) int {
+	for i, t := range toks {
+		if t.Kind == "junk" {
+			return i
+		}
+	}
+	return 0
 }
